@@ -23,7 +23,10 @@ def main():
         return 2
     try:
         if a.replay:
-            return mod.replay(a.replay)
+            if hasattr(mod, "replay"):
+                return mod.replay(a.replay)
+            from . import replay as generic
+            return generic.replay(pid, a.replay)
         run = common.Run(pid, a.tier, getattr(mod, "LEVEL", "model_checking"))
         mod.check(run, a.tier)
         return run.finish()
